@@ -75,9 +75,10 @@ FINDINGS = {
             "VM: GetUpValue of an OPEN upvalue into a register above the stack top grows the value stack while a slice into the old "
             "buffer is held: garbage at the first sample (fn dsp(x:float){ let a = 1.0  (0.0 |> (|y| { let t = (y, x, a)  match a { 2 => "
             "t.2 + 0.0, 0 => x, _ => x } })) } plays 6.9e-310 for x = 5); recorded as C03/F66 by the bytecode part, allocator dependent"),
-    "W10": (("wasm",), "syntactic W10: a lambda whose result is its own `self` of a sum type",
-            "WASM: invalid module (`type mismatch: expected i64 but nothing on stack`) for type T = A(float) | B((float, float))  "
-            "fn mk(){ |y| { let v = (match self { A(p) => p, B((q, r)) => q })  self } }; a named function with the same body is fine"),
+    "W10": (("vm", "wasm"), "syntactic W10: a lambda whose result is its own `self` of a sum type (directly or through a variable let-bound to it)",
+            "type T = K0 | K1((float, float)) | K2(float)  fn mk(){ |x| { self } }  let c = mk()  fn dsp(){ match c(1.0) { K0 => 1.0, K1(_) => 2.0, "
+            "K2(v) => 3.0 } }: the VM plays 0.0 (no arm's value; reference 1.0: the zero-initialised self is K0), WASM emits an invalid module "
+            "(`type mismatch: expected i64 but nothing on stack`); a named function with the same body is right on both"),
     "M5": (("vm", "wasm"), "syntactic M5: a constructor pattern inside a tuple pattern whose payload pattern nests a tuple pattern with variables",
            "match (1.0, A((7.0, (8.0, 9.0)))) { (_, A((x, (y, z)))) => x * 100.0 + y * 10.0 + z, _ => 0.0 } gives 788: the decision tree "
            "binds every variable of the nested pattern to the first component (mirgen.rs collect_bindings_from_payload overwrites the "
@@ -92,6 +93,10 @@ FINDINGS = {
            "a record pattern that takes `self` apart binds its fields by POSITION, not by name: fn f(x:float) -> {fa:float, fc:float}{ let {fc = q, "
            "fa = p} = self  {fa = p + x, fc = q + p} } gives q the word of fa and p the word of fc (f(1.0): 100 101 202 instead of 100 201 303): "
            "the meaning depends on the order in which the fields of the pattern are written"),
+    "W13": (("wasm",), "syntactic W13: a function with a function-typed parameter returns a stateful lambda that calls the parameter, and is used at least twice",
+            "WASM: an instance of a stateful lambda that calls ANOTHER instance of the same lambda loses the inner instance's state: "
+            "fn mk(g:(float)->float){ |x| { g(3.0) + self + 1.0 } }  let a = mk(|y| { 0.0 })  let b = mk(a)  fn dsp(){ b(0.0) } plays 2 4 6 "
+            "(VM and the reference: 2 5 9)"),
     "MG": (("vm", "wasm"), "syntactic MG: a match with a payload-binding constructor pattern evaluated at global scope (top-level `let` initialiser)",
            "type T = A((float, float)) | B((float, float, float))  let v = match A((1.0, 6.0)) { B((a, b, c)) => a, _ => 4.0 }: WASM gives 0.0 "
            "(VM and the reference 4.0); when the bound variable is used in an `if`, a call or a lambda the VM does not compile "
@@ -354,7 +359,7 @@ def run_wide_redundancy(ck, sides, viol, cov, quick):
     for (p, rows), c, m, r in zip(cases, expect, mres, ires):
         for sh in c["shapes"]:
             shapes[sh] = shapes.get(sh, 0) + 1
-        if m.get('big') or m.get('timeout') or any(abs(v) >= 2 ** 53 for row in c["expect"] for v in row):
+        if m.get('big') or m.get('timeout') or m.get('crashed') or any(abs(v) >= 2 ** 53 for row in c["expect"] for v in row):
             st["discarded_not_exact(|v|>=2^53)"] = st.get("discarded_not_exact(|v|>=2^53)", 0) + 1
             continue
         if m.get('ref') != c["expect"]:
@@ -405,6 +410,8 @@ def run_part(ck, quick=True):
                 bump("discarded_not_exact(|v|>=2^60)")
             elif m.get('timeout'):
                 bump("discarded_reference_took_longer_than_%ds" % lmmx.MODEL_CASE_TIMEOUT_S)
+            elif m.get('crashed'):
+                bump("discarded_reference_interpreter_ran_out_of_stack")
             else:
                 bump("reference_undefined")
                 bad.append((idx, "model", "the reference semantics is undefined (%s) on a generated well-typed program" % json.dumps(m)))
@@ -464,7 +471,7 @@ def run_part(ck, quick=True):
             out = []
             for (q, rw), m2, r2 in zip(cs, mr, ir):
                 if 'ref' not in m2 or any(abs(v) >= 2 ** 53 for row in m2['ref'] for v in row):
-                    out.append(be == "model" and 'ref' not in m2 and not m2.get('big') and not m2.get('timeout'))
+                    out.append(be == "model" and 'ref' not in m2 and not m2.get('big') and not m2.get('timeout') and not m2.get('crashed'))
                     continue
                 if be == "model":
                     out.append(False); continue
